@@ -553,6 +553,11 @@ func runRecording(t *rapid.T, mode string, vmime string) (canon string, nt bool,
 	longTorn := mode == "both" && rapid.IntRange(0, 9).Draw(t, "longTornStart") == 0
 	if !longTorn && rapid.IntRange(0, 6).Draw(t, "twoDims") == 0 {
 		dims = append(dims, [2]int{128, 96})
+		// a change of resolution opens a second file, often within the same millisecond as the first: the name collides and
+		// a numbered name is made.  That is where a user name with a separator matters a second time.
+		if rapid.Bool().Draw(t, "separatorInTheUserName") {
+			user = rapid.SampledFrom([]string{"a/b", "x/../../y", "../x", "a\\b"}).Draw(t, "collidingUser") + fmt.Sprint(c20n)
+		}
 	}
 	if mode != "audio" {
 		// (video first: the audio plan depends on whether the video changes resolution)
